@@ -14,5 +14,5 @@ def run(tier, seed):
                 "that bounded space only); non-trivial history = had a restore to a non-checkpoint target, an arena created after a checkpoint and a "
                 "restore right after a fossil collection (enumerated sequences all count); distinct by seed / sequence")
     chk.assumptions = ["sizes drawn from laws around powers of two, 1..64, 64 KiB, 0 and > 64 KiB; allocation failure of the host malloc is not injected"]
-    return chk.finish(min_evals=20, require={"operations": 100000, "new_arena_reuse_checks": 10, "calloc_blocks_checked": 100,
+    return chk.finish(min_evals=20, require={"operations": 100000, "reuse_probes_after_free": 1000, "calloc_blocks_checked": 100,
                                              "realloc_moved": 100, "bad_size_requests": 10, "enumerated_sequences": 1000})
